@@ -235,6 +235,10 @@ func (ts *TestScript) cmdExec(neg bool, args []string) {
 	if len(args) < 1 || (len(args) == 1 && args[0] == "&") {
 		ts.Fatalf("usage: exec program [args...] [&]")
 	}
+	if len(args) == 1 && backgroundSpecifier.MatchString(args[0]) {
+		// A named background specifier ("&name&") and no program.
+		ts.Fatalf("usage: exec program [args...] [&]")
+	}
 
 	var err error
 	if len(args) > 0 && backgroundSpecifier.MatchString(args[len(args)-1]) {
